@@ -420,7 +420,11 @@ fn run(v: &Value) -> Result<String, String> {
                         for (which, pre_existing) in [("sync", false), ("sync", true), ("async", false), ("async", true)] {
                             let path = dir.join(format!("out-{cname}-{n}-{fail}-{which}-{pre_existing}.bin"));
                             let part = { let mut s = path.file_name().unwrap().to_os_string(); s.push(".svspart"); path.with_file_name(s) };
-                            if pre_existing { std::fs::File::create(&path).unwrap().write_all(b"previous").unwrap(); }
+                            if pre_existing {
+                                std::fs::File::create(&path).unwrap().write_all(b"previous").unwrap();
+                                // ... and a longer temp file left behind by an earlier, killed pull of the same destination
+                                std::fs::write(&part, vec![0xEEu8; 3 * chunk + 777]).unwrap();
+                            }
                             // a neighbour that shares the destination's stem: a pull may touch its destination and its own temp file only
                             let neighbour = path.with_extension("svspart");
                             std::fs::write(&neighbour, b"neighbour").unwrap();
